@@ -17,7 +17,7 @@ SPEC = dict(
     level='exploration',
     design_ref='DESIGN.md section 3, C02; sections 2.2-2.4; section 7 rows F1-F7',
     rule=("one case = one byte string (or packet list) handed to one parser entry point: Message::Unflatten / UnflattenFromBytes / GetMessageFromPool(bytes), "
-          "Message::TemplatedUnflatten, MMUnflattenMessage, UMInitializeWithExistingData + the complete UM* read API, and the input path of MessageIOGateway "
+          "Message::TemplatedUnflatten, MMUnflattenMessage, UMInitializeWithExistingData + the complete UM* read API, and the direct entry points of ZLibCodec / ZLibUtilityFunctions (Inflate x2, GetInflatedSize, InflateByteBuffer, InflateMessage, ReadAndInflateAndWrite x2 through a segmenting DataIO with partial writes), and the input path of MessageIOGateway "
           "(default / zlib / counted), TemplatingMessageIOGateway, PlainText / Telnet, RawData (4 chunk modes), SLIPFramed, WebSocket (server / client x slave x handshake), "
           "PacketTunnel, MiniPacketTunnel (slave, misc-data, zlib, three MTU classes), MGDoInput / UGDoInput, all in random segmentation, then Reset() and a valid stream. "
           "Inputs: valid encodings produced by the library itself from msggen Messages, every prefix of the sweep encodings, every length/count/type/size word of the sweep "
@@ -32,6 +32,8 @@ SPEC = dict(
                  'the inflated size announced by a zlib header is not what SetMaxIncomingMessageSize() limits: counted as unspecified_zlib_rawsize_request_above_limit',
                  'the C gateways have no Reset(): a fresh gateway is used; MGDoInput allocates what the header declares and offers no limit (counted only)',
                  'fidelity of what an ACCEPTED input means (valid C++ encodings rejected by the C codecs, templated round trip) is the subject of C01/C03/C08 and only counted here',
+                 'zcodec: allocation <= 1100*N + 1 MiB (deflate expands at most 1032:1); after any outcome a following INDEPENDENT buffer must inflate correctly, dependent buffers are promised nothing after an error or a gap; '
+                 'the stream form (ReadAndInflateAndWrite) on the 2nd.. buffer of a dependent sequence is unspecified (it does not consume the tail of the previous buffer) and only counted',
                  'nesting deeper than 500 is generated only by leg deepnest (open finding F6)',
                  'the libFuzzer engine of the design (clang cov flavour) is not built by bin/vbuild and is not part of this check'],
     legs=[
@@ -40,15 +42,16 @@ SPEC = dict(
         _leg('gw', 30000), _leg('tgw', 15000, sweepT=12, sweepW=3), _leg('text', 6000, sweepT=12, sweepW=0, workers=4), _leg('raw', 8000, sweepT=12, sweepW=0, workers=4),
         _leg('slip', 6000, sweepT=12, sweepW=0, workers=4), _leg('ws', 20000, sweepT=20, sweepW=5), _leg('tunnel', 12000, sweepT=8, sweepW=2, workers=8),
         _leg('minitunnel', 8000, sweepT=8, sweepW=2, workers=4), _leg('cgw', 10000, sweepT=12, sweepW=3, workers=6),
+        _leg('zcodec', 24000, sweepT=24, sweepW=6, workers=8),
         Leg('deepnest', 'h_parse', 'asan', opts={'mode': 'deepnest'}, quick=3, thorough=3, workers=1, min_cases=1, cpu_budget=10),
-        Leg('memcheck', 'h_parse', 'plain', opts={'mode': 'parsers'}, quick=1400, thorough=56000, workers=16, valgrind=True, cpu_budget=10),
+        Leg('memcheck', 'h_parse', 'plain', opts={'mode': 'parsers'}, quick=1750, thorough=70000, workers=16, valgrind=True, cpu_budget=10),
         _sweep('msg_sweep', 'msg', 700000, 2000, 300), _sweep('tmsg_sweep', 'tmsg', 500000, 2000, 300), _sweep('mini_sweep', 'mini', 700000, 2000, 300),
         _sweep('micro_sweep', 'micro', 700000, 2000, 300), _sweep('gw_sweep', 'gw', 900000, 1500, 300), _sweep('tgw_sweep', 'tgw', 900000, 1000, 200),
         _sweep('ws_sweep', 'ws', 600000, 1500, 300), _sweep('tunnel_sweep', 'tunnel', 900000, 1000, 200), _sweep('minitunnel_sweep', 'minitunnel', 600000, 1000, 200),
-        _sweep('cgw_sweep', 'cgw', 700000, 1500, 300), _sweep('text_sweep', 'text', 300000, 2000, 0), _sweep('raw_sweep', 'raw', 300000, 2000, 0), _sweep('slip_sweep', 'slip', 300000, 2000, 0),
+        _sweep('cgw_sweep', 'cgw', 700000, 1500, 300), _sweep('text_sweep', 'text', 300000, 2000, 0), _sweep('raw_sweep', 'raw', 300000, 2000, 0), _sweep('slip_sweep', 'slip', 300000, 2000, 0), _sweep('zcodec_sweep', 'zcodec', 600000, 1500, 300),
     ],
     min_stats={
-        'regress': {'regress_witnesses': 12, 'regress_post_failure_walks': 300, 'regress_F5_rejected': 1000, 'regress_micro_walks': 500},
+        'regress': {'regress_witnesses': 13, 'regress_post_failure_walks': 300, 'regress_F5_rejected': 1000, 'regress_micro_walks': 500},
         'msg': {'cases_msg': 50000, 'post_failure_object_walks_msg': 20000, 'accepted_msg': 5000, 'rejected_msg': 20000, 'sweep_truncations': 3000, 'sweep_word_values': 5000, 'truncations_inside_the_first_12_bytes': 300,
                 'family_valid': 500, 'family_structure': 3000, 'family_random': 5000, 'role_nfields': 300, 'role_namelen': 1000, 'role_type': 2000, 'role_paylen': 1000, 'role_count': 500,
                 'role_itemlen': 500, 'role_subsize': 200, 'role_nest': 300, 'reuse_after_failure': 15000, 'reuse_after_success': 500, 'max_items_walked': 300, 'max_alloc_ratio_x100_valid_msg': 1},
@@ -66,6 +69,11 @@ SPEC = dict(
         'tunnel': dict(_gw_min, **{'cases_tunnel': 10000, 'role_tun-offset': 100, 'role_tun-chunk': 100, 'role_tun-total': 100, 'role_tun-msgid': 100, 'giant_request_without_limit': 10}),
         'minitunnel': {'cases_minitunnel': 7000, 'role_mtun-chunksize': 100, 'role_mtun-clevel-id': 50, 'role_zlib-rawsize': 20, 'post_reset_delivered': 3000, 'family_structure': 100},
         'cgw': {'cases_cgw': 8000, 'accepted_cgw': 2000, 'rejected_cgw': 1500, 'delivered_cgw': 3000, 'role_hdr-size': 200, 'cgw_valid_all_delivered': 30},
-        'memcheck': {'post_failure_object_walks_msg': 100, 'post_failure_object_walks_tmsg': 50, 'post_failure_object_walks_mini': 100, 'cases_msg': 300, 'cases_tmsg': 300, 'cases_mini': 300, 'cases_micro': 300},
+        'zcodec': {'cases_zcodec': 20000, 'api_Inflate_ref': 2000, 'api_Inflate_buf': 2000, 'api_InflateByteBuffer': 1500, 'api_InflateMessage': 1500, 'api_ReadAndInflateAndWrite': 2000,
+                   'api_util_ReadAndInflateAndWrite': 1500, 'accepted_zcodec_Inflate_ref': 300, 'accepted_zcodec_Inflate_buf': 300, 'accepted_zcodec_InflateByteBuffer': 150, 'accepted_zcodec_InflateMessage': 30,
+                   'accepted_zcodec_ReadAndInflateAndWrite': 300, 'accepted_zcodec_util_ReadAndInflateAndWrite': 150, 'rejected_zcodec_Inflate_ref': 1000, 'rejected_zcodec_ReadAndInflateAndWrite': 1000,
+                   'role_zlib-magic': 200, 'role_zlib-rawsize': 200, 'role_zdata-byte': 2000, 'sweep_truncations': 2000, 'sweep_word_values': 1000, 'family_valid': 100, 'family_structure': 1000,
+                   'family_random': 1500, 'post_failure_independent_inflates': 15000, 'max_zcodec_output_bytes': 300000},
+        'memcheck': {'cases_zcodec': 300, 'post_failure_object_walks_msg': 100, 'post_failure_object_walks_tmsg': 50, 'post_failure_object_walks_mini': 100, 'cases_msg': 300, 'cases_tmsg': 300, 'cases_mini': 300, 'cases_micro': 300},
     },
 )
